@@ -8,9 +8,9 @@
 # nodebug build. Exit code: 1 if either pass reports a violation, else 2 if either had a machinery error, else 0.
 set -u
 export CARGO_NET_OFFLINE=true
-SECOND_PASS="C02 C05 C13 C14 C16 C20"
+SECOND_PASS="C02 C04 C05 C06 C07 C08 C09 C10 C11 C12 C13 C14 C15 C16 C17 C19 C20"
 # thorough tier: also the checks whose thorough exploration is short enough to run twice
-SECOND_PASS_THOROUGH="C02 C04 C05 C06 C08 C09 C11 C12 C13 C14 C15 C16 C17 C19 C20"
+SECOND_PASS_THOROUGH="C02 C04 C05 C06 C07 C08 C09 C11 C12 C13 C14 C15 C16 C17 C19 C20"
 cd /verif/mc || exit 2
 mkdir -p /verif/target
 build() {  # $1 = cargo profile flag, $2 = log
